@@ -151,7 +151,15 @@ class Interp:
         oid = self.next_oid
         self.next_oid += 1
         self.heap[oid] = obj
+        obj.shared = getattr(self, "alloc_ctx", None)
+        obj.born_loops = tuple(self.loop_ctx)
         return Ref(oid, obj.kind)
+
+    def note_mutation(self, ref, o, how, node):
+        """mutation of an object created at module / class level (state shared by all decodes)"""
+        sh = getattr(o, "shared", None)
+        if sh and self.frames and self.frames[-1].finfo is not None:
+            self.event("shared_mutation", (sh, how, ref), node)
 
     def raw_guard_list(self):
         """conjuncts of the current path; 'no exception so far' facts are wrapped
@@ -271,12 +279,13 @@ class Interp:
         self.mod_ns[name] = ns
         m = self.prog.modules[name]
         fr = Frame(None, ns, name)
-        saved = (self.guard, self.loop_ctx, self.frames)
+        saved = (self.guard, self.loop_ctx, self.frames, getattr(self, "alloc_ctx", None))
         self.guard, self.loop_ctx, self.frames = [], [], [fr]
+        self.alloc_ctx = "module " + name
         try:
             self.exec_block(m.tree.body)
         finally:
-            self.guard, self.loop_ctx, self.frames = saved
+            self.guard, self.loop_ctx, self.frames, self.alloc_ctx = saved
         return ns
 
     def import_name(self, modname, attr=None):
@@ -389,8 +398,9 @@ class Interp:
         self.mod_ns[key] = ns
         fr = Frame(None, ns, cinfo.module.name)
         # class body sees module globals through load_name fallback
-        saved = (self.guard, self.loop_ctx, self.frames)
+        saved = (self.guard, self.loop_ctx, self.frames, getattr(self, "alloc_ctx", None))
         self.guard, self.loop_ctx, self.frames = [], [], [fr]
+        self.alloc_ctx = "class " + cinfo.qual
         try:
             for st in cinfo.node.body:
                 if isinstance(st, (ast.FunctionDef, ast.AsyncFunctionDef)):
@@ -398,7 +408,7 @@ class Interp:
                 else:
                     self.exec_stmt(st)
         finally:
-            self.guard, self.loop_ctx, self.frames = saved
+            self.guard, self.loop_ctx, self.frames, self.alloc_ctx = saved
         return ns
 
     def class_attr(self, cinfo, name):
@@ -428,6 +438,7 @@ class Interp:
             return
         if isinstance(obj, Ref) and isinstance(self.heap[obj.oid], Instance):
             o = self.heap[obj.oid]
+            self.note_mutation(obj, o, "attribute ." + name, node)
             g = self.rel_guard(o.born)
             old = o.attrs.get(name)
             if old is None:
@@ -893,6 +904,8 @@ class _CallMixin:
 
     def list_method(self, ref, o, name, args, kwargs, node):
         g = self.rel_guard(o.born)
+        if name in ("append", "extend", "sort", "reverse", "insert", "pop", "remove", "clear"):
+            self.note_mutation(ref, o, "list." + name, node)
         if name == "append":
             lc = self.loop_ctx[-1] if self.loop_ctx else None
             if lc is not None and not self.loop_born_inside(o, lc):
@@ -932,7 +945,7 @@ class _CallMixin:
         return Op("m:" + name, ref, *args)
 
     def loop_born_inside(self, o, lc):
-        return getattr(o, "born_loop", None) is lc or lc in getattr(o, "born_loops", ())
+        return lc in getattr(o, "born_loops", ())
 
     def dict_method(self, ref, o, name, args, kwargs, node):
         if name == "get":
@@ -942,6 +955,8 @@ class _CallMixin:
                 hit = o.lookup(key)
                 return hit[0] if hit else dflt
             return Op("dictget", ref, key, dflt)
+        if name in ("update", "pop", "clear", "setdefault", "popitem"):
+            self.note_mutation(ref, o, "dict." + name, node)
         if name == "update":
             src = self.simp(args[0]) if args else None
             g = self.rel_guard(o.born)
@@ -1071,11 +1086,14 @@ class _CallMixin:
         self.frames.append(fr)
         self.depth += 1
         saved_guard = self.guard
+        saved_ctx = getattr(self, "alloc_ctx", None)
+        self.alloc_ctx = None
         self.guard = flat
         try:
             self.exec_block(finfo.node.body)
         finally:
             self.guard = saved_guard
+            self.alloc_ctx = saved_ctx
             self.depth -= 1
             self.frames.pop()
         # propagate "raised" deadness to the caller: conditions under which the callee
@@ -1098,12 +1116,21 @@ class _CallMixin:
         return _strip_undef(ret, NONE)
 
     def ev_in_module(self, node, modname):
+        key = ("default", id(node))
+        cache = self.__dict__.setdefault("_defaults", {})
+        if key in cache:
+            return cache[key]
         fr = Frame(None, {}, modname)
         self.frames.append(fr)
+        saved_ctx = getattr(self, "alloc_ctx", None)
+        self.alloc_ctx = "default argument %s" % ast.unparse(node)
         try:
-            return self.ev(node)
+            v = self.ev(node)
         finally:
             self.frames.pop()
+            self.alloc_ctx = saved_ctx
+        cache[key] = v
+        return v
 
 
 def _strip_undef(t, repl=None):
@@ -1267,6 +1294,7 @@ class _StmtMixin:
         if isinstance(base, Ref):
             o = self.heap[base.oid]
             if isinstance(o, DictObj):
+                self.note_mutation(base, o, "dict[key] = value", node)
                 g = self.rel_guard(o.born)
                 lc = tuple(l for l in self.loop_ctx if l not in getattr(o, "born_loops", ()))
                 o.entries.append((key, v, g, lc))
@@ -1275,6 +1303,7 @@ class _StmtMixin:
                 self.event("dict_store", (base, key, v), node)
                 return
             if isinstance(o, ListObj):
+                self.note_mutation(base, o, "list[i] = value", node)
                 g = self.rel_guard(o.born)
                 if is_int(key) and o.concrete() and g == TRUE and 0 <= key.v < len(o.items) and not self.loop_ctx:
                     o.items[key.v] = ("v", v, TRUE)
@@ -1580,7 +1609,7 @@ class _LoopMixin:
                 start = it.args[1] if len(it.args) > 1 else Const(0)
                 elem = self.mk_list([add(start, L.idx), self.elem_of(it.args[0], L)], "tuple")
             else:
-                L.trip = Op("len", it)
+                L.trip = self.x_len([it], {}, None) if isinstance(it, Ref) else Op("len", it)
                 elem = self.elem_of(it, L)
         else:
             L.trip = Sym("trip%d" % L.lid, "trip", L)
@@ -1788,7 +1817,14 @@ class _ExtMixin:
                     if it[0] == "v" and it[2] == TRUE:
                         total = add(total, Const(1))
                     elif it[0] == "rep":
-                        total = add(total, Op("count", Const(it[1].lid), it[3]))
+                        L, g = it[1], it[3]
+                        inv = not any((isinstance(x, Sym) and (x == L.idx or (x.kind == "loopvar" and x.info
+                                       and x.info[0] == L.lid))) for x in walk(g))
+                        n_it = getattr(L, "iterations", None)
+                        if inv and n_it is not None:
+                            total = add(total, ite(g, n_it, Const(0)) if g != TRUE else n_it)
+                        else:
+                            total = add(total, Op("count", Const(L.lid), g))
                     else:
                         total = add(total, Op("b2i", it[2]))
                 return total
